@@ -94,7 +94,18 @@ Proof.
     pose proof (bounded_origin _ _ Hb) as Ho.
     destruct (negb b).
     + destruct (origin_of srcs); inv H; cbn; split; auto; intros; discriminate.
-    + destruct (o_null (dest_of srcs)); [inv H; cbn; split; [auto|intros; discriminate]|].
+    + destruct (o_null (dest_of srcs)).
+      { destruct (o_null (origin_of srcs)); [inv H; cbn; split; [auto|intros; discriminate]|].
+        destruct (determine_smp (origin_of srcs)) as [[ps o']| | |] eqn:Ed.
+        - pose proof (determine_smp_le _ _ _ _ Ho Ed) as Ho'.
+          assert (Hb' : bounded n (set_origin o' srcs)) by (apply bounded_set_origin; auto).
+          destruct ps; inv H; cbn; split; auto; intros; discriminate.
+        - assert (Hb' : bounded n (set_origin (origin_of srcs) srcs)) by (apply bounded_set_origin; auto).
+          inv H; cbn; split; auto; intros; discriminate.
+        - assert (Hb' : bounded n (set_origin (origin_of srcs) srcs)) by (apply bounded_set_origin; auto).
+          inv H; cbn; split; auto; intros; discriminate.
+        - assert (Hb' : bounded n (set_origin (origin_of srcs) srcs)) by (apply bounded_set_origin; auto).
+          inv H; cbn; split; auto; intros; discriminate. }
       destruct (tagged_null (origin_of srcs)); [inv H; cbn; split; [auto|intros; discriminate]|].
       destruct (determine_smp (origin_of srcs)) as [[ps o']| | |] eqn:Ed; cbn in H; try discriminate.
       pose proof (determine_smp_le _ _ _ _ Ho Ed) as Ho'.
@@ -114,7 +125,9 @@ Proof.
       apply bind_nd; [apply determine_smp_nd|]. intros [[] o]; discriminate.
   - intros b srcs. cbn. unfold m2_visit_list.
     destruct (negb b); [destruct (origin_of srcs); discriminate|].
-    destruct (o_null (dest_of srcs)); [discriminate|].
+    destruct (o_null (dest_of srcs)).
+    { destruct (o_null (origin_of srcs)); [discriminate|].
+      destruct (determine_smp (origin_of srcs)) as [[[] o']| | |]; discriminate. }
     destruct (tagged_null (origin_of srcs)); [discriminate|].
     apply bind_nd; [apply determine_smp_nd|]. intros [[] o]; discriminate.
   - intros srcs. cbn. unfold m2_visit_scalar. destruct (origin_of srcs); discriminate.
